@@ -20,16 +20,16 @@ CHECKS = {
          "random patterns and multi-patterns against reachable e-graphs; pattern slots spelled as written, like existing class parameter slots ($f<n>), $f0.., or numeric",
          "none beyond bounded sizes"),
  "C06": ("reference implementation (Bellman-Ford over eg.enodes) + round-trip: membership, recomputed cost = reported best cost = reference minimum, slot hygiene, totality; three strictly monotone cost functions",
-         "every live class, every handle and renamed invocations, after every union/rewrite of generated histories; Extractor and the ast_size_extract entry point",
+         "every live class, every handle and renamed invocations, after every union/rewrite of generated histories; Extractor and the ast_size_extract entry point; plus a fixed family of doubling chains whose costs exceed the u64 range",
          "cost functions strictly monotone"),
  "C07": ("independent proof checker on terms: every node of every explanation DAG re-checked (reflexivity, symmetry, transitivity with solved renamings, congruence under binders, leaves against the asserted equations and rules)",
          "every equal pair of inserted terms of generated justified histories is explained and re-checked",
          "premises up to renamings injective on each side (the property's notion); known finding D18 tolerated at leaf level"),
  "C08": ("stateful property-based testing: invariants (check(), lookup/enodes/enodes_applied coherence, slot coverage, find idempotence) after every operation of generated operation sequences over all test languages - one sequence in three is observed only at its end, old handles first, because every query compresses union-find paths - in the default, the checks and the explanations build",
-         "no panic and a consistent structure after every single operation of generated sequences (add, add_syn, union, rewrite, match, extract)",
+         "no panic and a consistent structure after every single operation of generated sequences (add, add_syn, union, rewrite, match, extract); one stage with an analysis whose modify hook unions (w(w(x)) = x), one with 10-argument operators",
          "well-formed inputs only; explanations+checks configuration not covered (DESIGN 7)"),
  "C09": ("metamorphic + differential: lookup vs add (creates nothing <=> lookup succeeds), variants that are represented by construction (alpha, renaming, replacement by united subterm) or that the ground congruence closure proves equal to an inserted term (mutated copies, and every copy with permuted free names of chosen inserted terms), renaming equivariance; slots of results against the ground closure",
-         "probe terms on reachable e-graphs (mixed histories incl. rewriting; four spellings of slot names; one stage on e-graphs that carry an analysis)",
+         "probe terms on reachable e-graphs (mixed histories incl. rewriting; four spellings of slot names; one stage on e-graphs that carry an analysis, one with an analysis whose modify hook unions: returned invocations must have the slots of their canonical form)",
          "representedness of variants is by construction; redundancy oracle = ground closure (sound direction for this use)"),
  "C10": ("exhaustive enumeration of generator sets (<=3 generators on 2-4 points) + random sets on 5-6 points against brute-force subgroup closure, directly on the group structure (hook) and through union/eq on multi-slot leaves; redundancy variant judged by the ground closure",
          "exhaustive for the space the property names, random beyond; plus exhaustive: every generator set of 1-2 permutations on 3 and 4 points asserted on a leaf whose class is then merged with another class (either one the bigger, both orientations, generators before or after), judged by the ground closure",
@@ -41,13 +41,13 @@ CHECKS = {
          "order and orientation independence on generated add/union histories (four spellings; leaves of up to 5 slots in one stage; one stage on e-graphs that carry an analysis)",
          "none beyond bounded sizes"),
  "C13": ("history invariants: recorded equalities persist, old handles usable (find/eq/extract), slot sets shrink, progress lexicographically monotone, after every operation of long mixed histories",
-         "stateful exploration of long histories with invariants over everything recorded earlier; one history in three leaves the old handles untouched until the end (queries compress union-find paths)",
+         "stateful exploration of long histories with invariants over everything recorded earlier; one history in three leaves the old handles untouched until the end (queries compress union-find paths); one stage with an analysis whose modify hook unions (an insertion's new class is merged away during the insertion)",
          "none beyond bounded sizes"),
  "C14": ("fixpoint equation + independent least fixpoint: datum = join of make over e-nodes, equal handles share data, min-size = Bellman-Ford = Extractor best cost, constants = independent LFP = model value, modify adds the numeral",
          "three analyses (min-size, min-depth, constant folding with modify) after every operation of generated histories",
          "only model-valid unions / rules for the constant analysis"),
  "C15": ("independent fingerprint (node count, eq-partition, slot and symmetry counts through eq) around apply_rewrites / Runner / run_eqsat; stop reasons checked against the final state, saturation re-checked by matching every rule",
-         "generated start e-graphs x rule subsets x iteration / node limits (absolute, and relative to the start size) x failing hooks; one stage whose e-node count grows and then shrinks by congruence",
+         "generated start e-graphs x rule subsets x iteration / node limits (absolute, and relative to the start size) x failing hooks; one stage whose e-node count grows and then shrinks by congruence; a fixed family in which the time limit expires inside an iteration (slow searcher)",
          "TimeLimit never asserted about"),
  "C16": ("reference canonicaliser on a model AST + algebraic shape laws + occurrence partition + syntax round-trip; exhaustive over small slot assignments, random beyond",
          "all node variants of seven derived languages (incl. 10-argument operators) with repeated and shadowing names, under five spellings incl. one that numbers a node's names $0,$1,.. by first occurrence; payload values with whitespace in the syntax round trip",
